@@ -752,7 +752,39 @@ def merge_rules(run, r_bases, r_ids, ast):
         tb = [n for n in pushes if any(x.get("k") == "MemberExpr" and x.get("member") == "transitive_bases" for x in astq.walk(n["c"][0]))
               and astq.strip(n["c"][1]).get("k") == "DeclRefExpr"]
         ti = [n for n in pushes if any(x.get("k") == "MemberExpr" and x.get("member") == "type_ids" for x in astq.walk(n["c"][0]))]
+        # pushes whose argument is the variable of a loop over some class's transitive_bases: the closure step, not the collection
+        def _closure_push(n):
+            a = astq.strip(n["c"][1])
+            if a.get("k") != "DeclRefExpr":
+                return False
+            for lp in astq.walk(f["body"]):
+                if lp.get("k") == "CXXForRangeStmt" and lp["var"]["did"] == a["ref"]["did"] and any(x.get("k") == "MemberExpr" and x.get("member") == "transitive_bases" for x in astq.walk(lp["range"])):
+                    return True
+            return False
+        closure = [n for n in tb if _closure_push(n)]
+        tb = [n for n in tb if n not in closure]
         if r_bases:
+            # classes may be registered incrementally (each class with its direct base only, in separate statements): the lists the
+            # direct-base extraction and the slot reservation walk are only complete if they are closed transitively after collection
+            byid_c, parent_c = astq.index_nodes(f)
+            okc = False
+            for n in closure:
+                loops = _enclosing(parent_c, n, ("ForStmt", "WhileStmt", "DoStmt"))
+                flags = set()
+                for st in _enclosing(parent_c, n, ("CompoundStmt",)):
+                    for x in st.get("c") or []:
+                        e = astq.strip(x) if x.get("k") != "DeclStmt" else None
+                        if e is not None and e.get("k") == "BinaryOperator" and e.get("op") == "=" and (astq.strip(e["c"][0]) or {}).get("k") == "DeclRefExpr" and (astq.strip(e["c"][1]) or {}).get("k") == "CXXBoolLiteralExpr" and astq.strip(e["c"][1]).get("v"):
+                            flags.add(astq.strip(e["c"][0])["ref"]["did"])
+                if any(lp.get("cond") is not None and any(y.get("k") == "DeclRefExpr" and y["ref"]["did"] in flags for y in astq.walk(lp["cond"])) for lp in loops):
+                    okc = True
+            if closure and not okc:
+                run.broken.append("%s: a step extends transitive_bases from the bases' own lists, but not in the 'repeat until nothing changes' form this rule recognises" % short(f))
+            else:
+                run.instance(r_bases, "%s: the collected base lists are closed transitively (a class registered with its direct base only still knows all its bases)" % short(f), (f["file"], f["line"]), ok=okc)
+                if not okc:
+                    run.violation(r_bases, "compiler::augment_classes|bases-not-closed", "a class's transitive_bases only holds the bases its own registration records name: with incremental registration (each class listed with its direct base, in separate statements) "
+                                  "an indirect base is missing, direct-base extraction keeps a spurious direct base and the lattice slot reservation skips it - two method parameters can share a v-table cell", (f["file"], f["line"]))
             if len(tb) != 1:
                 run.broken.append("%s: expected one push of a looked-up base into transitive_bases, found %d" % (short(f), len(tb)))
             else:
@@ -1426,12 +1458,34 @@ def idem_rules(run, r_idem, ast):
             run.broken.append("%s: expected one push_back, found %d" % (short(f), len(pb)))
             continue
         res = {}
+        guard_kind = set()
+
+        def linked_call(c):
+            """`info.<m>()` where <m> is a member of the list link that answers 'the node is in a list' from its links"""
+            c0 = astq.strip(c)
+            if c0 is None or c0.get("k") != "CXXMemberCallExpr" or "static_link::" not in (c0.get("callee") or ""):
+                return False
+            g = [x for x in ast.funcs if x.get("body") and x["name"] == c0["callee"]]
+            if not g:
+                return False
+            e = _ret_expr(g[0])
+            t = _canon(e, {}) if e is not None else ""
+            return t in ("(this->prev_ptr != null)", "this->prev_ptr", "(null != this->prev_ptr)", "!(this->prev_ptr == null)")
         for registered in (True, False):
             def decide(c, registered=registered):
                 t = _canon(c, {})
                 if t in ("info.method", "(info.method != null)"):
+                    guard_kind.add("flag")
                     return registered
                 if t in ("!info.method", "(info.method == null)"):
+                    guard_kind.add("flag")
+                    return not registered
+                c0 = astq.strip(c)
+                if linked_call(c0):
+                    guard_kind.add("links")
+                    return registered
+                if c0 is not None and c0.get("k") == "UnaryOperator" and c0.get("op") == "!" and linked_call(c0["c"][0]):
+                    guard_kind.add("links")
                     return not registered
                 return None
 
@@ -1453,6 +1507,20 @@ def idem_rules(run, r_idem, ast):
         run.instance(r_idem, "%s: a definition already registered is not pushed again; otherwise method is set, then pushed" % short(f)[:80], (f["file"], pb[0]["l"]), ok=bool(ok))
         if not ok:
             run.violation(r_idem, "method::add_function|idempotence", "events when already registered: %s, when not: %s" % (res[True], res[False]), (f["file"], pb[0]["l"]))
+        # "already registered" must mean "is in the catalog now": a private flag that registration sets and that unregistration (the
+        # record's destructor, static_list::remove, static_list::clear) never resets goes stale - after the catalog is cleared every
+        # later registration of the function is refused
+        if "flag" in guard_kind:
+            resets = [n for g in ast.funcs if g.get("body") and re.search(r"definition_info::~definition_info|static_list<.*>::(clear|remove)$", g["name"]) for n in astq.walk(g["body"])
+                      if n.get("k") == "BinaryOperator" and n.get("op") == "=" and (astq.strip(n["c"][0]) or {}).get("k") == "MemberExpr" and astq.strip(n["c"][0]).get("member") == "method"
+                      and _canon(n["c"][1], {}) == "null"]
+            okf = bool(resets)
+            run.instance(r_idem, "%s: the 'already registered' test reflects membership in the catalog (reset on unregistration, or read from the links)" % short(f)[:80], (f["file"], pb[0]["l"]), ok=okf)
+            if not okf:
+                run.violation(r_idem, "method::add_function|stale-flag", "add_function refuses a function whose record has `method` set, but nothing resets that field when the record is unregistered (clear / remove / destructor): "
+                              "after the definitions catalog was cleared the definition cannot be registered again", (f["file"], pb[0]["l"]))
+        elif "links" in guard_kind:
+            run.instance(r_idem, "%s: the 'already registered' test reflects membership in the catalog (reset on unregistration, or read from the links)" % short(f)[:80], (f["file"], pb[0]["l"]), ok=True)
         # registering a function again changes nothing: on the 'already registered' paths no field of the record is written (a second
         # registration without a next pointer would otherwise erase the one update stores through)
         touched = sorted({e for p in res[True] for e in p if e.startswith("set:")})
